@@ -9,15 +9,19 @@ open Gen.ErrCodes World
 
 def Quiet (w : World) : Prop := ∀ c s, w.liveC c = some s → w.cifBusy c = false → s.autocommit = true
 
+/-- a CIF on which an iterator is open is inside that iterator's transaction -/
+def Loud (w : World) : Prop := ∀ c s, w.liveC c = some s → w.cifBusy c = true → ∃ d, s.txn = some d
+
 structure WOk (w : World) : Prop where
   tied : WTied w
   quiet : Quiet w
+  loud : Loud w
 
 theorem WOk.good {w : World} (h : WOk w) : WGood w := h.tied.good
 theorem WOk.iters {w : World} (h : WOk w) : Iters w := h.tied.iters
 theorem WOk.one {w : World} (h : WOk w) : OneIter w := h.tied.one
 
-theorem WOk.empty : WOk {} := ⟨WTied.empty, fun c s hs => by simp [liveC, List.getD] at hs⟩
+theorem WOk.empty : WOk {} := ⟨WTied.empty, (fun c s hs => by simp [liveC, List.getD] at hs), (fun c s hs => by simp [liveC, List.getD] at hs)⟩
 
 theorem busy_of_entry {w : World} {i : Nat} {e : ITE} (hi : w.its.getD i none = some e) : w.cifBusy e.cif = true := by
   cases hb : w.cifBusy e.cif with
@@ -61,18 +65,50 @@ theorem Quiet.setFree {w w' : World} (h : Quiet w) (c : Nat) (s1 : Store) (hq : 
   · cases h1; exact hq
   · exact h c' s h1 h2
 
+
+theorem Loud.same {w w' : World} (h : Loud w) (hits : w'.its = w.its) (hcifs : w'.cifs = w.cifs) : Loud w' := by
+  intro c s hs hb
+  have h1 : w.liveC c = some s := by unfold liveC at hs ⊢; rw [← hcifs]; exact hs
+  have h2 : w.cifBusy c = true := by unfold cifBusy at hb ⊢; rw [← hits]; exact hb
+  exact h c s h1 h2
+
+/-- the busy CIFs keep their stores -/
+theorem Loud.frame {w w' : World} (h : Loud w) (hb : ∀ c, w'.cifBusy c = true → w.cifBusy c = true)
+    (hc : ∀ c s, w'.liveC c = some s → w'.cifBusy c = true → w.liveC c = some s) : Loud w' :=
+  fun c s hs hbusy => h c s (hc c s hs hbusy) (hb c hbusy)
+
+theorem busy_of_its {w w' : World} (hits : w'.its = w.its) (c : Nat) : w'.cifBusy c = w.cifBusy c := by unfold cifBusy; rw [hits]
+
+theorem getPackets_txn (s s2 : Store) (l : LH) (it : Iter) (h : getPackets s l = (s2, .ok it)) : ∃ d, s2.txn = some d := by
+  unfold getPackets at h
+  split at h
+  · cases h
+  · split at h
+    · cases h
+    · rename_i s2' hb
+      obtain ⟨_, hs2⟩ := begin_autocommit _ s2' hb
+      split at h
+      · cases h
+      · simp only [Prod.mk.injEq, Except.ok.injEq] at h
+        rw [← h.1, hs2]; exact ⟨_, rfl⟩
+
 theorem WOk.same {w w' : World} (h : WOk w) (hits : w'.its = w.its) (hcifs : w'.cifs = w.cifs) : WOk w' :=
-  ⟨h.tied.same hits hcifs, h.quiet.same hits hcifs⟩
+  ⟨h.tied.same hits hcifs, h.quiet.same hits hcifs, h.loud.same hits hcifs⟩
 
 theorem WOk.setFree {w w' : World} (h : WOk w) (c : Nat) (s1 : Store) (hg : GoodS s1) (hq : s1.autocommit = true) (hb : w.cifBusy c = false)
     (hits : w'.its = w.its) (hcifs : w'.cifs = w.cifs.set c (some s1)) : WOk w' :=
-  ⟨h.tied.setFree c s1 hg hb hits hcifs, h.quiet.setFree c s1 hq hits hcifs⟩
+  ⟨h.tied.setFree c s1 hg hb hits hcifs, h.quiet.setFree c s1 hq hits hcifs,
+   h.loud.frame (fun c' hb' => by rw [busy_of_its hits] at hb'; exact hb') (fun c' s' hs' hb' => by
+     rw [busy_of_its hits] at hb'
+     have hne : c' ≠ c := by intro e; subst e; rw [hb] at hb'; cases hb'
+     unfold liveC at hs' ⊢
+     rw [hcifs, getD_set_ne' _ _ _ _ hne] at hs'; exact hs')⟩
 
 /-- the store of a CIF without open iterator is in autocommit mode -/
 theorem WOk.autocommit {w : World} (h : WOk w) {c : Nat} {s : Store} (hs : w.liveC c = some s) (hb : w.cifBusy c = false) :
     s.autocommit = true := h.quiet c s hs hb
 
-theorem WOk.cifNew {w w' : World} (h : WOk w) (hits : w'.its = w.its) (hcifs : w'.cifs = w.cifs ++ [some ({} : Store)]) : WOk w' := by
+theorem WOk.cifNew_tq {w w' : World} (h : WOk w) (hits : w'.its = w.its) (hcifs : w'.cifs = w.cifs ++ [some ({} : Store)]) : WTied w' ∧ Quiet w' := by
   refine ⟨h.tied.cifNew hits hcifs, ?_⟩
   intro c s hs hb
   have h2 : w.cifBusy c = false := by unfold cifBusy at hb ⊢; rw [← hits]; exact hb
@@ -82,9 +118,9 @@ theorem WOk.cifNew {w w' : World} (h : WOk w) (hits : w'.its = w.its) (hcifs : w
   · exact h.quiet c s h1 h2
   · cases h1; rfl
 
-theorem WOk.cifDel {w w' : World} (h : WOk w) (c : Nat) (hb : w.cifBusy c = false)
+theorem WOk.cifDel_tq {w w' : World} (h : WOk w) (c : Nat) (hb : w.cifBusy c = false)
     (hits : w'.its = w.its.map (fun e => match e with | some e => if e.cif == c then none else some e | none => none))
-    (hcifs : w'.cifs = w.cifs.set c none) : WOk w' := by
+    (hcifs : w'.cifs = w.cifs.set c none) : WTied w' ∧ Quiet w' := by
   refine ⟨h.tied.cifDel c hb hits hcifs, ?_⟩
   -- no entry is removed: the CIF has no open iterator
   have hsame : w'.its = w.its := by
@@ -107,7 +143,7 @@ theorem WOk.cifDel {w w' : World} (h : WOk w) (c : Nat) (hb : w.cifBusy c = fals
   · cases h1
   · exact h.quiet c' s h1 h2
 
-theorem WOk.itNone {w w' : World} (h : WOk w) (hits : w'.its = w.its ++ [none]) (hcifs : w'.cifs = w.cifs) : WOk w' := by
+theorem WOk.itNone_tq {w w' : World} (h : WOk w) (hits : w'.its = w.its ++ [none]) (hcifs : w'.cifs = w.cifs) : WTied w' ∧ Quiet w' := by
   refine ⟨h.tied.itNone hits hcifs, ?_⟩
   intro c s hs hb
   have h1 : w.liveC c = some s := by unfold liveC at hs ⊢; rw [← hcifs]; exact hs
@@ -118,10 +154,10 @@ theorem WOk.itNone {w w' : World} (h : WOk w) (hits : w'.its = w.its ++ [none]) 
   have := getD_some_lt _ _ _ hi
   simpa [List.getD, List.getElem?_append_left this] using hi
 
-theorem WOk.itOpen {w w' : World} (h : WOk w) (l : Nat) (e : LHE) (s : Store) (hl : w.liveL l = some (e, s))
+theorem WOk.itOpen_tq {w w' : World} (h : WOk w) (l : Nat) (e : LHE) (s : Store) (hl : w.liveL l = some (e, s))
     (hb : w.cifBusy e.cif = false) (hv : e.h.validB s.db = true)
     (hits : w'.its = w.its ++ [match (getPackets s e.h).2 with | .ok it => some { cif := e.cif, lh := l, it := it } | .error _ => none])
-    (hcifs : w'.cifs = w.cifs.set e.cif (some (getPackets s e.h).1)) : WOk w' := by
+    (hcifs : w'.cifs = w.cifs.set e.cif (some (getPackets s e.h).1)) : WTied w' ∧ Quiet w' := by
   refine ⟨h.tied.itOpen l e s hl hb hv hits hcifs, ?_⟩
   have hs := liveL_liveC hl
   have hold : ∀ c', w'.cifBusy c' = false → w.cifBusy c' = false := by
@@ -150,8 +186,8 @@ theorem WOk.itOpen {w w' : World} (h : WOk w) (l : Nat) (e : LHE) (s : Store) (h
       rw [hb'] at this; cases this
   · exact h.quiet c' s' h1 (hold c' hb')
 
-theorem WOk.itNext {w w' : World} (h : WOk w) (i : Nat) (e : ITE) (s : Store) (hl : w.liveI i = some (e, s))
-    (hits : w'.its = w.its.set i (some { e with it := (nextPacket s e.it).1 })) (hcifs : w'.cifs = w.cifs) : WOk w' := by
+theorem WOk.itNext_tq {w w' : World} (h : WOk w) (i : Nat) (e : ITE) (s : Store) (hl : w.liveI i = some (e, s))
+    (hits : w'.its = w.its.set i (some { e with it := (nextPacket s e.it).1 })) (hcifs : w'.cifs = w.cifs) : WTied w' ∧ Quiet w' := by
   refine ⟨h.tied.itNext i e s hl hits hcifs, ?_⟩
   have hi := liveI_its hl
   intro c s' hs' hb'
@@ -169,8 +205,8 @@ theorem WOk.itNext {w w' : World} (h : WOk w) (i : Nat) (e : ITE) (s : Store) (h
     rw [hits]
     simpa [List.getD, List.getElem?_set_ne (Ne.symm hji)] using hj
 
-theorem WOk.itUpd {w w' : World} (h : WOk w) (i : Nat) (e : ITE) (s : Store) (p : List (Str × V)) (hl : w.liveI i = some (e, s))
-    (hits : w'.its = w.its) (hcifs : w'.cifs = w.cifs.set e.cif (some (updatePacket s e.it p).1)) : WOk w' := by
+theorem WOk.itUpd_tq {w w' : World} (h : WOk w) (i : Nat) (e : ITE) (s : Store) (p : List (Str × V)) (hl : w.liveI i = some (e, s))
+    (hits : w'.its = w.its) (hcifs : w'.cifs = w.cifs.set e.cif (some (updatePacket s e.it p).1)) : WTied w' ∧ Quiet w' := by
   refine ⟨h.tied.itUpd i e s p hl hits hcifs, ?_⟩
   have hi := liveI_its hl
   intro c s' hs' hb'
@@ -183,9 +219,9 @@ theorem WOk.itUpd {w w' : World} (h : WOk w) (i : Nat) (e : ITE) (s : Store) (p 
     rw [h2] at this; cases this
   · exact h.quiet c s' h1 h2
 
-theorem WOk.itRem {w w' : World} (h : WOk w) (i : Nat) (e : ITE) (s : Store) (hl : w.liveI i = some (e, s))
+theorem WOk.itRem_tq {w w' : World} (h : WOk w) (i : Nat) (e : ITE) (s : Store) (hl : w.liveI i = some (e, s))
     (hits : w'.its = w.its.set i (some { e with it := (removePacket s e.it).2.1 }))
-    (hcifs : w'.cifs = w.cifs.set e.cif (some (removePacket s e.it).1)) : WOk w' := by
+    (hcifs : w'.cifs = w.cifs.set e.cif (some (removePacket s e.it).1)) : WTied w' ∧ Quiet w' := by
   refine ⟨h.tied.itRem i e s hl hits hcifs, ?_⟩
   have hi := liveI_its hl
   have hmono : ∀ c, w'.cifBusy c = false → w.cifBusy c = false := by
@@ -212,8 +248,8 @@ theorem WOk.itRem {w w' : World} (h : WOk w) (i : Nat) (e : ITE) (s : Store) (hl
     rw [h2] at this; cases this
   · exact h.quiet c s' h1 h2
 
-theorem WOk.itEnd {w w' : World} (h : WOk w) (i : Nat) (e : ITE) (s s1 : Store) (hl : w.liveI i = some (e, s)) (hg : GoodS s1)
-    (hq : s1.autocommit = true) (hits : w'.its = w.its.set i none) (hcifs : w'.cifs = w.cifs.set e.cif (some s1)) : WOk w' := by
+theorem WOk.itEnd_tq {w w' : World} (h : WOk w) (i : Nat) (e : ITE) (s s1 : Store) (hl : w.liveI i = some (e, s)) (hg : GoodS s1)
+    (hq : s1.autocommit = true) (hits : w'.its = w.its.set i none) (hcifs : w'.cifs = w.cifs.set e.cif (some s1)) : WTied w' ∧ Quiet w' := by
   refine ⟨h.tied.itEnd i e s s1 hl hg hits hcifs, ?_⟩
   have hi := liveI_its hl
   intro c s' hs' hb'
@@ -230,5 +266,215 @@ theorem WOk.itEnd {w w' : World} (h : WOk w) (i : Nat) (e : ITE) (s s1 : Store) 
     refine ⟨j, e', ?_, hc⟩
     rw [hits]
     simpa [List.getD, List.getElem?_set_ne (Ne.symm hji)] using hj
+
+
+-- ---- Loud through the ops that touch the iterator table ---------------------------------------------------------------------------------
+
+theorem entry_lt {w : World} (h : WOk w) {i : Nat} {e : ITE} (hi : w.its.getD i none = some e) : e.cif < w.cifs.length := by
+  obtain ⟨s, hs, _⟩ := h.iters i e hi
+  exact getD_some_lt _ _ _ hs
+
+theorem WOk.cifNew {w w' : World} (h : WOk w) (hits : w'.its = w.its) (hcifs : w'.cifs = w.cifs ++ [some ({} : Store)]) : WOk w' := by
+  obtain ⟨ht, hq⟩ := h.cifNew_tq hits hcifs
+  refine ⟨ht, hq, h.loud.frame (fun c hb => by rw [busy_of_its hits] at hb; exact hb) ?_⟩
+  intro c s hs hb
+  rw [busy_of_its hits] at hb
+  obtain ⟨i, e, hi, hc⟩ := entry_of_busy hb
+  have hlt := entry_lt h hi
+  unfold liveC at hs ⊢
+  rw [hcifs] at hs
+  rcases getD_append_cases _ _ _ _ hs with ⟨_, h1⟩ | ⟨h0, _⟩
+  · exact h1
+  · omega
+
+theorem WOk.cifDel {w w' : World} (h : WOk w) (c : Nat) (hb : w.cifBusy c = false)
+    (hits : w'.its = w.its.map (fun e => match e with | some e => if e.cif == c then none else some e | none => none))
+    (hcifs : w'.cifs = w.cifs.set c none) : WOk w' := by
+  obtain ⟨ht, hq⟩ := h.cifDel_tq c hb hits hcifs
+  have hsame : w'.its = w.its := by
+    rw [hits]
+    have : ∀ x ∈ w.its, (match x with | some e => if e.cif == c then none else some e | none => none) = x := by
+      intro x hx
+      cases x with
+      | none => rfl
+      | some e =>
+        obtain ⟨i, hi, hget⟩ := List.getElem_of_mem hx
+        have hne := cifBusy_false hb i e (by simp [List.getD, hi, hget])
+        simp [hne]
+    calc w.its.map _ = w.its.map id := List.map_congr_left this
+      _ = w.its := List.map_id _
+  refine ⟨ht, hq, h.loud.frame (fun c' hb' => by rw [busy_of_its hsame] at hb'; exact hb') ?_⟩
+  intro c' s hs hb'
+  unfold liveC at hs ⊢
+  rw [hcifs] at hs
+  rcases getD_set_cases _ _ _ _ _ hs with ⟨_, h1⟩ | ⟨_, h1⟩
+  · cases h1
+  · exact h1
+
+theorem busy_append_none {w w' : World} (hits : w'.its = w.its ++ [none]) (c : Nat) : w'.cifBusy c = w.cifBusy c := by
+  unfold cifBusy; rw [hits, List.any_append]; simp
+
+theorem WOk.itNone {w w' : World} (h : WOk w) (hits : w'.its = w.its ++ [none]) (hcifs : w'.cifs = w.cifs) : WOk w' := by
+  obtain ⟨ht, hq⟩ := h.itNone_tq hits hcifs
+  refine ⟨ht, hq, h.loud.frame (fun c hb => by rw [busy_append_none hits] at hb; exact hb) ?_⟩
+  intro c s hs _
+  unfold liveC at hs ⊢; rw [hcifs] at hs; exact hs
+
+theorem WOk.itOpen {w w' : World} (h : WOk w) (l : Nat) (e : LHE) (s : Store) (hl : w.liveL l = some (e, s))
+    (hb : w.cifBusy e.cif = false) (hv : e.h.validB s.db = true)
+    (hits : w'.its = w.its ++ [match (getPackets s e.h).2 with | .ok it => some { cif := e.cif, lh := l, it := it } | .error _ => none])
+    (hcifs : w'.cifs = w.cifs.set e.cif (some (getPackets s e.h).1)) : WOk w' := by
+  obtain ⟨ht, hq⟩ := h.itOpen_tq l e s hl hb hv hits hcifs
+  refine ⟨ht, hq, ?_⟩
+  intro c s' hs' hb'
+  unfold liveC at hs'
+  rw [hcifs] at hs'
+  rcases getD_set_cases _ _ _ _ _ hs' with ⟨hc, h1⟩ | ⟨hne, h1⟩
+  · cases h1
+    cases hr : (getPackets s e.h).2 with
+    | ok it => exact getPackets_txn s _ e.h it (by rw [← hr])
+    | error cc =>
+      exfalso
+      have : w'.its = w.its ++ [none] := by rw [hits, hr]
+      rw [busy_append_none this, hc, hb] at hb'; cases hb'
+  · refine h.loud c s' h1 ?_
+    obtain ⟨i, e', hi, hce⟩ := entry_of_busy hb'
+    rw [hits] at hi
+    rcases getD_append_cases _ _ _ _ hi with ⟨_, h2⟩ | ⟨_, h2⟩
+    · rw [← hce]; exact busy_of_entry h2
+    · exfalso
+      cases hr : (getPackets s e.h).2 with
+      | ok it => rw [hr] at h2; simp only [Option.some.injEq] at h2; subst h2; exact hne hce.symm
+      | error cc => rw [hr] at h2; cases h2
+
+theorem busy_set_same {w w' : World} (i : Nat) (e e' : ITE) (hi : w.its.getD i none = some e) (hc : e'.cif = e.cif)
+    (hits : w'.its = w.its.set i (some e')) (c : Nat) (hb : w'.cifBusy c = true) : w.cifBusy c = true := by
+  obtain ⟨j, e2, hj, hce⟩ := entry_of_busy hb
+  rw [hits] at hj
+  rcases getD_set_cases _ _ _ _ _ hj with ⟨_, h1⟩ | ⟨_, h1⟩
+  · simp only [Option.some.injEq] at h1; subst h1
+    rw [← hce, hc]; exact busy_of_entry hi
+  · rw [← hce]; exact busy_of_entry h1
+
+theorem WOk.itNext {w w' : World} (h : WOk w) (i : Nat) (e : ITE) (s : Store) (hl : w.liveI i = some (e, s))
+    (hits : w'.its = w.its.set i (some { e with it := (nextPacket s e.it).1 })) (hcifs : w'.cifs = w.cifs) : WOk w' := by
+  obtain ⟨ht, hq⟩ := h.itNext_tq i e s hl hits hcifs
+  refine ⟨ht, hq, h.loud.frame (fun c hb => busy_set_same i e { e with it := (nextPacket s e.it).1 } (liveI_its hl) rfl hits c hb) ?_⟩
+  intro c s' hs' _
+  unfold liveC at hs' ⊢; rw [hcifs] at hs'; exact hs'
+
+theorem WOk.itUpd {w w' : World} (h : WOk w) (i : Nat) (e : ITE) (s : Store) (p : List (Str × V)) (hl : w.liveI i = some (e, s))
+    (hits : w'.its = w.its) (hcifs : w'.cifs = w.cifs.set e.cif (some (updatePacket s e.it p).1)) : WOk w' := by
+  obtain ⟨ht, hq⟩ := h.itUpd_tq i e s p hl hits hcifs
+  refine ⟨ht, hq, ?_⟩
+  intro c s' hs' hb'
+  rw [busy_of_its hits] at hb'
+  unfold liveC at hs'
+  rw [hcifs] at hs'
+  rcases getD_set_cases _ _ _ _ _ hs' with ⟨hc, h1⟩ | ⟨_, h1⟩
+  · cases h1
+    rw [updatePacket_txn]
+    exact h.loud e.cif s (liveI_liveC hl) (busy_of_entry (liveI_its hl))
+  · exact h.loud c s' h1 hb'
+
+theorem WOk.itRem {w w' : World} (h : WOk w) (i : Nat) (e : ITE) (s : Store) (hl : w.liveI i = some (e, s))
+    (hits : w'.its = w.its.set i (some { e with it := (removePacket s e.it).2.1 }))
+    (hcifs : w'.cifs = w.cifs.set e.cif (some (removePacket s e.it).1)) : WOk w' := by
+  obtain ⟨ht, hq⟩ := h.itRem_tq i e s hl hits hcifs
+  refine ⟨ht, hq, ?_⟩
+  intro c s' hs' hb'
+  have hb := busy_set_same i e { e with it := (removePacket s e.it).2.1 } (liveI_its hl) rfl hits c hb'
+  unfold liveC at hs'
+  rw [hcifs] at hs'
+  rcases getD_set_cases _ _ _ _ _ hs' with ⟨hc, h1⟩ | ⟨_, h1⟩
+  · cases h1
+    rw [removePacket_txn]
+    exact h.loud e.cif s (liveI_liveC hl) (busy_of_entry (liveI_its hl))
+  · exact h.loud c s' h1 hb
+
+theorem WOk.itEnd {w w' : World} (h : WOk w) (i : Nat) (e : ITE) (s s1 : Store) (hl : w.liveI i = some (e, s)) (hg : GoodS s1)
+    (hq1 : s1.autocommit = true) (hits : w'.its = w.its.set i none) (hcifs : w'.cifs = w.cifs.set e.cif (some s1)) : WOk w' := by
+  obtain ⟨ht, hq⟩ := h.itEnd_tq i e s s1 hl hg hq1 hits hcifs
+  have hi := liveI_its hl
+  refine ⟨ht, hq, ?_⟩
+  intro c s' hs' hb'
+  obtain ⟨j, e2, hj, hce⟩ := entry_of_busy hb'
+  rw [hits] at hj
+  rcases getD_set_cases _ _ _ _ _ hj with ⟨_, h1⟩ | ⟨hji, h1⟩
+  · cases h1
+  · have hne : c ≠ e.cif := by
+      intro hc
+      exact hji (h.one j i e2 e h1 hi (by rw [hce, hc]))
+    unfold liveC at hs'
+    rw [hcifs, getD_set_ne' _ _ _ _ hne] at hs'
+    exact h.loud c s' hs' (by rw [← hce]; exact busy_of_entry h1)
+
+/-- cif_loop_get_packets inside a transaction: refused, database and transaction as they were -/
+theorem getPackets_refused (s : Store) (l : LH) (d : Db) (ht : s.txn = some d) :
+    (∃ c, (getPackets s l).2 = .error c) ∧ (getPackets s l).1.txn = s.txn ∧ (getPackets s l).1.db = s.db := by
+  have hsame := getNames_same s l
+  have hna : ∀ s1 : Store, s1.txn = s.txn → s1.begin = none := by
+    intro s1 h1
+    unfold Store.begin
+    have : s1.autocommit = false := by simp [Store.autocommit, h1, ht]
+    simp [this]
+  unfold getPackets
+  split
+  · rename_i s1 c hg
+    rw [hg] at hsame
+    exact ⟨⟨c, rfl⟩, hsame.2.1, hsame.1⟩
+  · rename_i s1 ns hg
+    rw [hg] at hsame
+    rw [hna s1 hsame.2.1]
+    exact ⟨⟨_, rfl⟩, hsame.2.1, hsame.1⟩
+
+/-- a second cif_loop_get_packets while an iterator is open on the CIF: refused (no iterator is delivered), the open iterator and its
+    transaction are untouched — one iterator at a time per CIF -/
+theorem WOk.itOpenBusy {w w' : World} (h : WOk w) (l : Nat) (e : LHE) (s : Store) (hl : w.liveL l = some (e, s))
+    (hb : w.cifBusy e.cif = true)
+    (hits : w'.its = w.its ++ [match (getPackets s e.h).2 with | .ok it => some { cif := e.cif, lh := l, it := it } | .error _ => none])
+    (hcifs : w'.cifs = w.cifs.set e.cif (some (getPackets s e.h).1)) :
+    WOk w' ∧ ∃ c, (getPackets s e.h).2 = .error c := by
+  have hs := liveL_liveC hl
+  obtain ⟨d, ht⟩ := h.loud e.cif s hs hb
+  obtain ⟨⟨c, hc⟩, htx, hdb⟩ := getPackets_refused s e.h d ht
+  refine ⟨?_, c, hc⟩
+  have hits' : w'.its = w.its ++ [none] := by rw [hits, hc]
+  have hentry : ∀ i e', w'.its.getD i none = some e' → w.its.getD i none = some e' := by
+    intro i e' hi
+    rw [hits'] at hi
+    rcases getD_append_cases _ _ _ _ hi with ⟨_, h1⟩ | ⟨_, h1⟩
+    · exact h1
+    · cases h1
+  have hlive : ∀ c' s', w'.liveC c' = some s' → (c' = e.cif ∧ s' = (getPackets s e.h).1) ∨ (c' ≠ e.cif ∧ w.liveC c' = some s') := by
+    intro c' s' hs'
+    unfold liveC at hs'
+    rw [hcifs] at hs'
+    rcases getD_set_cases _ _ _ _ _ hs' with ⟨h1, h2⟩ | ⟨h1, h2⟩
+    · cases h2; exact Or.inl ⟨h1, rfl⟩
+    · exact Or.inr ⟨h1, h2⟩
+  refine ⟨⟨?_, ?_, ?_⟩, ?_, ?_⟩
+  · exact (h.good.setCif e.cif _ (getPackets_goodS (h.good.live hs) e.h)).of_cifs (by rw [hcifs]; rfl)
+  · intro i e' hi
+    obtain ⟨s', hs', hok⟩ := h.iters i e' (hentry i e' hi)
+    by_cases hce : e'.cif = e.cif
+    · rw [hce, hs] at hs'; cases hs'
+      refine ⟨(getPackets s e.h).1, ?_, by rw [hdb]; exact hok⟩
+      unfold liveC; rw [hcifs, hce]; exact liveC_set_self w e.cif s _ hs
+    · refine ⟨s', ?_, hok⟩
+      unfold liveC at hs' ⊢
+      rw [hcifs, getD_set_ne' _ _ _ _ hce]; exact hs'
+  · intro i j e1 e2 h1 h2
+    exact h.one i j e1 e2 (hentry i e1 h1) (hentry j e2 h2)
+  · intro c' s' hs' hb'
+    rw [busy_append_none hits'] at hb'
+    rcases hlive c' s' hs' with ⟨h1, _⟩ | ⟨_, h2⟩
+    · rw [h1, hb] at hb'; cases hb'
+    · exact h.quiet c' s' h2 hb'
+  · intro c' s' hs' hb'
+    rw [busy_append_none hits'] at hb'
+    rcases hlive c' s' hs' with ⟨_, h2⟩ | ⟨_, h2⟩
+    · rw [h2, htx]; exact ⟨d, ht⟩
+    · exact h.loud c' s' h2 hb'
 
 end CifModel.Store
